@@ -1,7 +1,9 @@
 import SpdxVerif.Props.C01
+import SpdxVerif.Props.Consts
 #print axioms Spdx.C01.verdict_eq_eval
 #print axioms Spdx.C01.verdictBy_eq_eval
 #print axioms Spdx.C01.verdict_iff_alternative_covered
 #print axioms Spdx.C01.verdict_and
 #print axioms Spdx.C01.verdict_or
 #print axioms Spdx.C01.satisfies_spec
+#print axioms Spdx.ConstsPin.expandAnd_ints
